@@ -211,7 +211,7 @@ pub fn gen(rng: &mut Rng, idx: usize) -> Value {
         let pa = prefix[a].iter().filter(|sg| s(&sg["k"]) == "P").count();
         // with some probability re-use an already planned full pattern (split registration / same path from another app)
         let mut local: Option<Vec<Value>> = None;
-        if !registered.is_empty() && rng.chance(1, 3) {
+        if !registered.is_empty() && rng.chance(1, 6) {
             let (full, _) = rng.pick(&registered).clone();
             if starts(&full, &prefix[a]) { local = Some(full[prefix[a].len()..].to_vec()) }
         }
